@@ -35,7 +35,12 @@ RULE = ('failure sets enumerated: every subset of failing positions for streams 
         '(num_threads=1: compared in order), first operator of every kind (assign / filter / sink first: the class of the '
         'repaired F-C12-passed-on); skippable routing errors passed on between operators (every subset of records whose '
         'output routing fails x the kind of the next operator); assign(batch_size=1..3) on aligned streams (last batch 1..b rows) x '
-        'failing reads x skipping on/off x a failing call with skipping off, and the same with one row too many (misaligned).  non-trivial = at least one element fails and at least one survives')
+        'failing reads x skipping on/off x a failing call with skipping off, and the same with one row too many (misaligned); '
+        'arm after-error (SC12c): on EVERY case in which an error reaches the caller the exception is released, every sink\'s closed is read with '
+        'the iterator alive and next() is called 1..3 more times on the same iterator (delivered / written / closed recorded); failing '
+        'apply|assign|filter|sink x 6 operators-in-front x 6 operators-behind (sinks, filters, plain; all 144 enforced) x every failing position x num_threads 0/1/2; '
+        'arm skip-config (SC12c): skipping on the data source | on the pipeline | both | neither x route direct | .shard(k,n) | make(shard=ShardConfig(k,n)) | '
+        'source iterator from_state | restored pipeline iterator (20 classes enforced) x every failing-read set in the part read afterwards.  non-trivial = at least one element fails and at least one survives')
 
 N, P = G.N, G.P
 
@@ -264,6 +269,86 @@ def value_shape_cases(ctx):
                           src_ignore=ignore and bool(i % 3), tag='value-shape:source')
 
 
+def after_error_cases(ctx):
+  """SC12c (1): OBSERVERS AFTER THE FIRST ERROR.  Skipping disabled (or enabled with an unskippable KeyError): the failing
+  operator (apply / assign / filter / sink) at every position relative to sinks, filters and plain operators — a chain
+  `pre + [failing] + post` for every pre in none|assign|filter|sink|apply|sink+assign and post in none|apply|assign|filter|sink|
+  apply+assign — every single failing position of streams of 3 (quick) / 3..5 records plus one pair, num_threads 0 / 1 / 2.
+  After the error reached the caller and was released, `lib_pipe.observe_after_error` reads every sink's `closed` while the
+  iterator is still alive, calls next() again 1..3 times on the SAME iterator and records what each call did and what the
+  sinks were given (`obs['post']`)."""
+  pres = dict(BEFORE, **{'sink+assign': BEFORE['sink'] + BEFORE['assign']})
+  posts = {k: AFTER[k] for k in ('none', 'apply', 'assign', 'filter', 'sink')}
+  posts['apply+assign'] = AFTER['apply'] + [{'op': 'assign', 'fn': {'f': 'neg'}, 'in': {'one': N('h')}, 'keys': {'one': N('k')}}]
+  ns = (3,) if ctx.quick else (3, 4, 5)
+  i = 0
+  for kind in ('apply', 'assign', 'filter', 'sink'):
+    for b, pre in pres.items():
+      for a, post in posts.items():
+        for n in ns:
+          # filter keeps a != 0: the failing positions are 1.. for a failing filter in front of which nothing drops
+          for s in [(j,) for j in range(n)] + [(0, n - 1)]:
+            i += 1
+            for t in (0, 1, 2):
+              if t and (i + t) % 3:
+                continue
+              err, ignore = 'ValueError', False
+              if i % 7 == 0:
+                err, ignore = 'KeyError', True        # skipping enabled, an unskippable error: it surfaces all the same
+              elif i % 5 == 0:
+                err = 'TypeError'
+              specs = copy.deepcopy(pre) + [failing_op(kind, s, err)] + copy.deepcopy(post)
+              c = c08.mk_case(specs, recs(n), ignore=ignore, threads=t, tag=f'after-error:{kind}:t{t}')
+              c['post_next'] = 1 + i % 3
+              c['ae'] = f'{b}|{kind}|{a}'
+              yield c
+
+
+ROUTES = ('direct', 'shard', 'make_shard', 'src_from_state', 'restored')
+
+
+def skip_config_cases(ctx):
+  """SC12c (2): WHERE SKIPPING IS CONFIGURED x HOW THE SOURCE REACHES THE RUNNER.  `SequenceDataSource(seq, ignore_error=s)`
+  under `iterate(ignore_error=p)` for (s, p) in source-only / pipeline-only / both / neither, the source reaching the runner
+  directly, through `.shard(k, n)`, through `.data_source(src) ... make(shard=ShardConfig(k, n))`, as a source iterator
+  restored with `from_state`, and inside a pipeline iterator restored with `from_state` (lib_pipe.routed_iterator); every
+  non-empty set of failing reads of 4 (quick) / 4..6 records that lies in the part read after the route was taken; first
+  operator of every kind.  The oracle is the reference on the records the route selects (lib_pipe.effective_case): a route
+  never changes whether the source skips."""
+  ns = (4,) if ctx.quick else (4, 5, 6)
+  firsts = {'apply': AFTER['apply'], 'assign': AFTER['assign'], 'select': [{'op': 'select', 'in': {'many': [N('a'), N('b')]}}],
+            'filter': BEFORE['filter'], 'sink': BEFORE['sink']}
+  i = 0
+  for via in ROUTES:
+    for n in ns:
+      routes = {'direct': [None], 'shard': [dict(via=via, k=k, n=m) for m in (1, 2, 3) for k in range(m)],
+                'make_shard': [dict(via=via, k=k, n=m) for m in (1, 2, 3) for k in range(m)],
+                'src_from_state': [dict(via=via, j=j) for j in (0, 1, 2)],
+                'restored': [dict(via=via, j=j) for j in (0, 1, 2)]}[via]
+      for route in routes:
+        for s in subsets(n):
+          if not s or (route and 'j' in route and min(s) < route['j']):
+            continue          # the state is captured before any failing record is met (what a state after one means: C10)
+          for where in ('source', 'pipeline', 'both', 'neither'):
+            i += 1
+            if where == 'neither' and i % 4:
+              continue
+            first = list(firsts)[i % len(firsts)]
+            if via == 'restored' and first in ('filter', 'sink'):
+              first = 'assign'       # one sink object under two pipeline iterators; a filter decouples outputs from reads
+            err = 'ValueError' if i % 5 else ('TypeError' if i % 10 else 'KeyError')
+            t = 1 if (via in ('direct', 'shard', 'make_shard') and i % 6 == 0) else 0
+            after = copy.deepcopy(AFTER['counter']) if i % 2 else []
+            if after and first == 'apply':
+              after[0]['in'] = {'one': N('h')}        # the apply replaced the record
+            c = c08.mk_case(copy.deepcopy(firsts[first]) + after, recs(n),
+                            ignore=where in ('pipeline', 'both'), threads=t, kind='seq', fail=[(j, err) for j in s],
+                            src_ignore=where in ('source', 'both'), tag=f'skip-config:{via}:{where}')
+            if route:
+              c['src']['route'] = route
+            yield c
+
+
 def gen_cases(ctx):
   rng, quick = ctx.rng, ctx.quick
 
@@ -279,6 +364,9 @@ def gen_cases(ctx):
           ctx.count('error_kind', sp['fn']['kind'])
       if c.get('threads'):
         ctx.count('threads', c['threads'])
+      if 'ae' in c:
+        ctx.count('after_error_position', c['ae'])
+        ctx.count('after_error_next_calls', c['post_next'])
       if c.get('tag', '').startswith('value-shape'):
         for sp in c['specs']:
           if sp['op'] == 'select' or (sp['op'] in ('apply', 'assign') and sp.get('fn') is None):
@@ -293,6 +381,8 @@ def gen_cases(ctx):
   yield from counted(passed_on_cases(ctx), 'passed-on')
   yield from counted(aligned_assign_cases(ctx), 'aligned-assign')
   yield from counted(value_shape_cases(ctx), 'value-shape')
+  yield from counted(after_error_cases(ctx), 'after-error')
+  yield from counted(skip_config_cases(ctx), 'skip-config')
 
   def rand(n):
     for _ in range(n):
@@ -328,7 +418,13 @@ def extra(ctx):
   need = ['op:apply', 'op:assign', 'op:filter', 'op:sink', 'source:apply', 'source:assign', 'batched:apply', 'batched:assign',
           'random', 'threads', 'source-noskip:assign', 'source-noskip:filter', 'source-noskip:sink', 'passed-on:assign',
           'passed-on:filter', 'passed-on:sink', 'aligned-assign', 'aligned-assign:failing-call'] + [f'tsource:{k}:t{t}' for k in ('seq', 'iter') for t in (0, 1, 2)]
+  need += [f'after-error:{k}:t{t}' for k in ('apply', 'assign', 'filter', 'sink') for t in (0, 1, 2)]
+  need += [f'skip-config:{via}:{where}' for via in ROUTES for where in ('source', 'pipeline', 'both', 'neither')]
   missing = [c for c in need if c not in ctx.hist.get('class', {})]
+  need_ae = [f'{b}|{k}|{a}' for k in ('apply', 'assign', 'filter', 'sink') for b in ('none', 'assign', 'filter', 'sink', 'apply', 'sink+assign')
+             for a in ('none', 'apply', 'assign', 'filter', 'sink', 'apply+assign')]
+  missing += [c for c in need_ae if c not in ctx.hist.get('after_error_position', {})]
+  missing += [f'next-calls:{k}' for k in (1, 2, 3) if str(k) not in ctx.hist.get('after_error_next_calls', {})]
   need_vs = [f'value-shape:{where}:{op}-fn:{lab}' for lab in G.VS_LABELS
              for where, op in (('op', 'select'), ('op', 'assign'), ('op', 'apply'), ('source', 'select'), ('source', 'assign'))]
   missing += [c for c in need_vs if c not in ctx.hist.get('value_shape', {})]
@@ -346,7 +442,13 @@ def extra(ctx):
 
 # ----------------------------------------------------------------------------- impl / model / oracle
 
-model_requests = c08.model_requests
+def model_requests(case):
+  # a routed case (src.route) is, for the model as for the reference, the plain case over the records the route selects
+  reqs = c08.model_requests(L.effective_case(case))
+  reqs[0]['post_next'] = case.get('post_next', L.POST_NEXT)
+  return reqs
+
+
 model_obs = c08.model_obs
 
 # predicates of the named library that return one truth value whatever they are given (`OpOK.pred` is not decidable)
@@ -391,10 +493,31 @@ def compare_any_source(impl, model):
   return None
 
 
+def compare_after_error(impl, model):
+  """Instances of `C12_first_error_is_final`: the pipeline iterator (num_threads=0) is a GENERATOR object around the operator
+  chain (`Impl.pipeNext` = Iter.genNext): after the call that raised, the model's state is finalised — every later next()
+  answers StopIteration, nothing is delivered or written, every sink has been closed once."""
+  post = impl.get('post')
+  if impl.get('threads') or impl.get('build') is not None or 'make_error' in impl or impl.get('agg') or impl.get('hang'):
+    return None
+  mpost = model.get('post')
+  if (post is None) != (mpost is None):
+    return f'after the first error: code {jdump(post)[:200]} / model {jdump(mpost)[:200]}'
+  if post is None:
+    return None
+  c08._stat('after_error_tie', 'compared')
+  for k in ('calls', 'delivered', 'closed_at_error', 'closed_after'):
+    if post[k] != mpost[k]:
+      return f'after the first error, {k}: code {jdump(post[k])[:200]} / model (a finalised generator) {jdump(mpost[k])[:200]}'
+  if any(post['written']):
+    return f"after the first error the sinks were written again: {jdump(post['written'])[:200]}; model: a finalised generator writes nothing"
+  return None
+
+
 def compare(impl, model):
   d = c08.compare(impl, model)
   if d is None:
-    d = compare_any_source(impl, model)
+    d = compare_any_source(impl, model) or compare_after_error(impl, model)
     if d is not None:
       c08._stat('verdict', 'disagreement')
   return d
@@ -447,6 +570,33 @@ def _oracle(case, obs):
     return what
   if obs.get('threads_alive'):
     return f"[threads] {obs['threads_alive']} helper threads are still alive after the iteration ended"
+  return oracle_after_error(case, obs)
+
+
+def oracle_after_error(case, obs):
+  """'With error skipping disabled the first error reaches the caller ..., iteration stops, sinks are closed': once the
+  first error has reached the caller (and has been handled and released) the SAME pipeline iterator must not hand out
+  anything more, must not write to a sink again, and — with no helper threads — every sink has been closed exactly once
+  although the iterator object is still alive.  (With helper threads the iterator keeps the failure to raise it again; the
+  sinks are then required closed once the iterator has been dropped.)  A later next() may answer StopIteration or raise."""
+  post = obs.get('post')
+  if post is None or case.get('ignore'):
+    return None
+  k = len(obs.get('out') or [])
+  if 'value' in post['calls']:
+    return (f"[after-error] skipping disabled, the first error ({obs.get('err')}) reached the caller after {k} outputs, but iteration did "
+            f"not stop: later next() calls answered {post['calls']} and delivered {jdump(post['delivered'])[:200]}")
+  if any(post['written']):
+    return (f"[after-error] skipping disabled, the sinks were written again after the first error had reached the caller: "
+            f"{jdump(post['written'])[:200]} (next() calls after the error: {post['calls']})")
+  if not case.get('threads'):
+    if any(c != 1 for c in post['closed_at_error']):
+      return (f"[after-error] skipping disabled, the first error reached the caller and was released, but close() calls per sink are "
+              f"{post['closed_at_error']} (the pipeline iterator is still alive)")
+    if any(c != 1 for c in post['closed_after']):
+      return f"[after-error] close() calls per sink after {len(post['calls'])} more next() calls: {post['closed_after']}"
+  elif any(c < 1 for c in obs.get('closed') or []):
+    return f"[after-error] helper threads: close() calls per sink after the failed iterator was dropped: {obs['closed']}"
   return None
 
 
